@@ -194,7 +194,8 @@ func (c *Collection) _stopFeeds() {
 	for _, feed := range c.bucket.collectionFeeds[c.DataStoreNameImpl] {
 		feed.close()
 	}
-	c.bucket.collectionFeeds = nil
+	// The stopped feeds stay listed (pushing to a closed queue is a no-op); the map itself is
+	// shared by every handle of the bucket and by the other collections' feeds.
 }
 
 //////// DCPFEED:
